@@ -3827,24 +3827,35 @@ class ControlConnection(object):
         return False
 
     def _refresh_schema(self, connection, preloaded_results=None, schema_agreement_wait=None, force=False, **kwargs):
-        if self._cluster.is_shutdown:
-            return False
+        refreshed, _ = self._refresh_schema_after_agreement(
+            connection, preloaded_results=preloaded_results, schema_agreement_wait=schema_agreement_wait,
+            force=force, **kwargs)
+        return refreshed
 
-        agreed = self.wait_for_schema_agreement(connection,
-                                                preloaded_results=preloaded_results,
-                                                wait_time=schema_agreement_wait)
+    def _refresh_schema_after_agreement(self, connection, preloaded_results=None, schema_agreement_wait=None,
+                                        force=False, **kwargs):
+        """
+        Returns a tuple (refreshed, agreed): whether schema metadata was refreshed, and whether
+        the schema agreement wait that precedes the refresh ended in agreement.
+        """
+        if self._cluster.is_shutdown:
+            return False, False
+
+        agreed = bool(self.wait_for_schema_agreement(connection,
+                                                     preloaded_results=preloaded_results,
+                                                     wait_time=schema_agreement_wait))
 
         if not self._schema_meta_enabled and not force:
             log.debug("[control connection] Skipping schema refresh because schema metadata is disabled")
-            return False
+            return False, agreed
 
         if not agreed:
             log.debug("Skipping schema refresh due to lack of schema agreement")
-            return False
+            return False, agreed
 
         self._cluster.metadata.refresh(connection, self._timeout, **kwargs)
 
-        return True
+        return True, agreed
 
     def refresh_node_list_and_token_map(self, force_token_rebuild=False):
         try:
@@ -4350,7 +4361,7 @@ def refresh_schema_and_set_result(control_conn, response_future, connection, **k
     try:
         log.debug("Refreshing schema in response to schema change. "
                   "%s", kwargs)
-        response_future.is_schema_agreed = control_conn._refresh_schema(connection, **kwargs)
+        _, response_future.is_schema_agreed = control_conn._refresh_schema_after_agreement(connection, **kwargs)
     except Exception:
         log.exception("Exception refreshing schema in response to schema change:")
         response_future.session.submit(control_conn.refresh_schema, **kwargs)
